@@ -50,6 +50,7 @@ package transport
 //@ spec openOK(key Bytes, ad Bytes, ct Bytes) bool
 //@ spec opened(key Bytes, ad Bytes, ct Bytes) Bytes
 //@ spec aeadKey(a Ref) Bytes
+//@ spec sealedOf(key Bytes, ad Bytes, pt Bytes) Bytes
 //@ spec ipEqual(a Bytes, b Bytes) bool
 
 //@ func kravatte.NewSANSE(key []byte) (a cipher.AEAD, err error)
@@ -172,6 +173,8 @@ package transport
 //@   assume interface contract of the AEAD, refined by kravatte's sanse.Seal (C12)
 //@   modifies dst[:]
 //@   ensures len(out) == len(dst) + len(plaintext) + 32
+//@   ensures cap(dst) - len(dst) >= len(plaintext) + 32 ==> ref(out) == ref(dst) && off(out) == off(dst)
+//@   ensures len(dst) == 0 ==> bytes(out) == old(sealedOf(aeadKey(ref(a)), bytes(additionalData), bytes(plaintext)))
 
 //@ func (ss *SessionState) writeCounter(w io.ByteWriter)
 //@   inline
@@ -299,12 +302,15 @@ package transport
 //@   modifies *duplex, duplex.gh_tr
 //@   ensures cyclistOK(duplex) && duplex.mode == cyclist.Key
 //@   ensures err == nil ==> len(out) == len(leaf) + len(intermediate) + 4
+// (C02) in reader form (see EncryptSNI)
+//@   ensures err == nil ==> fresh(out) && duplex.gh_tr == trDecrypt(old(duplex.gh_tr), bytes(out))
 
 //@ func (hs *HandshakeState) RekeyFromSqueeze(protocolName string)
 //@   property C10 C02
 //@   requires cyclistOK(hs.duplex) && len(protocolName) < 100
 //@   modifies hs.duplex, hs.duplex.gh_tr, hs.handshakeKey
 //@   ensures cyclistOK(hs.duplex) && hs.duplex.mode == cyclist.Key
+//@   ensures hs.duplex.gh_tr == rekeyTr(old(hs.duplex.gh_tr), bytes(protocolName))
 
 //@ func (hs *HandshakeState) writeCookie(b []byte, k []byte) (n int, err error)
 //@   property C10 C19
@@ -312,6 +318,7 @@ package transport
 //@   modifies b[:], hashAcc
 //@   ensures err == nil ==> n == 64
 //@   ensures err != nil ==> n == 0
+//@   ensures err == nil && len(b) >= 64 ==> bytes(b[:64]) == old(sealedOf(bytes(hs.cookieKey), cookieAD(kemPubOf(ref(hs.kem.remoteEphemeral)), bytes(hs.remoteAddr.IP), hs.remoteAddr.Port), bytes(k)))
 
 //@ func (hs *HandshakeState) decryptCookie(b []byte) (n int, k *[]byte, err error)
 //@   property C10 C19
@@ -319,6 +326,7 @@ package transport
 //@   modifies hashAcc
 //@   ensures err == nil ==> n == 64 && k != nil && len(*k) == 32 && len(b) >= 64
 //@   ensures err == nil ==> openOK(bytes(hs.cookieKey), cookieAD(kemPubOf(ref(hs.kem.remoteEphemeral)), bytes(hs.remoteAddr.IP), hs.remoteAddr.Port), bytes(b[:64]))
+//@   ensures err == nil ==> bytes(*k) == opened(bytes(hs.cookieKey), cookieAD(kemPubOf(ref(hs.kem.remoteEphemeral)), bytes(hs.remoteAddr.IP), hs.remoteAddr.Port), bytes(b[:64]))
 
 //@ func readPQClientHello(hs *HandshakeState, b []byte) (n int, err error)
 //@   property C10 C02
@@ -336,10 +344,17 @@ package transport
 //@   ensures err == nil ==> hs != nil && hsOK(hs) && hs.duplex.mode == cyclist.Hash && hs.kem.remoteEphemeral != nil && len(b) == 820
 
 //@ func writePQServerHello(hs *HandshakeState, b []byte) (n int, err error)
-//@   property C10 C19
+//@   property C10 C19 C02
 //@   requires hsOK(hs) && hs.remoteAddr != nil && hs.kem.remoteEphemeral != nil
-//@   modifies hs.duplex, hs.duplex.gh_tr, b[:]
+//@   modifies hs.duplex, hs.duplex.gh_tr, b[:], hashAcc
 //@   ensures err == nil ==> n == 852 && n <= len(b)
+// (C02) header, KEM secret (a function of every ciphertext byte and the client's key) and cookie are absorbed; the last 16 bytes are the squeezed MAC
+//@   ensures err == nil ==> hs.duplex.gh_tr == shTr(old(hs.duplex.gh_tr), bytes(b[0:4]), kemShared(kemPubOf(ref(hs.kem.remoteEphemeral)), bytes(b[4:772])), bytes(b[772:836]))
+//@   ensures err == nil ==> bytes(b[836:852]) == shMac(old(hs.duplex.gh_tr), bytes(b[0:4]), kemShared(kemPubOf(ref(hs.kem.remoteEphemeral)), bytes(b[4:772])), bytes(b[772:836]))
+//@   ensures err == nil ==> b[0] == 2 && b[1] == 0 && b[2] == 0 && b[3] == 0
+// the cookie seals that same secret under the server's cookie key, bound to the client's key and address
+//@   ensures err == nil && ref(b) != ref(hs.remoteAddr.IP) ==> bytes(b[772:836]) == sealedOf(old(bytes(hs.cookieKey)), cookieAD(kemPubOf(ref(hs.kem.remoteEphemeral)), old(bytes(hs.remoteAddr.IP)), hs.remoteAddr.Port),
+//@        kemShared(kemPubOf(ref(hs.kem.remoteEphemeral)), bytes(b[4:772])))
 
 //@ func (s *Server) ReplayPQDuplexFromCookie(cookie []byte, clientKemEphemeral keys.KEMPublicKey, clientAddr *net.UDPAddr) (hs *HandshakeState, err error)
 //@   property C10 C19 C02
@@ -348,6 +363,12 @@ package transport
 //@   modifies hashAcc, opaque(s)
 //@   ensures err == nil ==> hs != nil && hsOK(hs) && hs.duplex.mode == cyclist.Key && hs.remoteAddr == clientAddr
 //@   ensures err == nil ==> openOK(bytes(s.cookieKey), cookieAD(kemPubOf(ref(clientKemEphemeral)), bytes(clientAddr.IP), clientAddr.Port), bytes(cookie[:64]))
+// (C02) the replayed duplex is the hello exchange's transcript recomputed from the cookie alone: protocol name, the
+// literal client-hello header and the client's key, the literal server-hello header, the secret opened from
+// the cookie, the cookie; then the re-keying step
+//@   ensures err == nil ==> hs.duplex.gh_tr == replayTr(kemPubOf(ref(clientKemEphemeral)),
+//@        opened(bytes(s.cookieKey), cookieAD(kemPubOf(ref(clientKemEphemeral)), bytes(clientAddr.IP), clientAddr.Port), bytes(cookie[:64])), bytes(cookie))
+//@   ensures err == nil ==> fresh(hs)
 
 //@ func (n *certs.Name) ReadFrom(r io.Reader) (k int64, err error)
 //@   assume name decoding (C11 / C18 cover it): changes only the name it fills
@@ -368,6 +389,15 @@ package transport
 //@        same(argof(transport.Server.ReplayPQDuplexFromCookie, cookie), b[836:900]) &&
 //@        kemPubOf(ref(argof(transport.Server.ReplayPQDuplexFromCookie, clientKemEphemeral))) == old(bytes(b[36:836]))
 //@   ensures err == nil ==> called(bytes.Equal) && resultof(bytes.Equal, r)
+// (C02) all 1172 bytes are covered: the cookie-replayed hello transcript (a function of bytes [36:900], the source
+// address and the cookie key) extended by the same transcript function the writer applies
+//@   ensures err == nil ==> hs.duplex.gh_tr == ackTr(
+//@        replayTr(bytes(b[36:836]), opened(old(bytes(s.cookieKey)), cookieAD(bytes(b[36:836]), old(bytes(addr.IP)), addr.Port), bytes(b[836:900])), bytes(b[836:900])),
+//@        bytes(b[0:4]), bytes(b[4:36]), bytes(b[36:836]), bytes(b[836:900]), bytes(b[900:1156]))
+//@   ensures err == nil ==> bytes(b[1156:1172]) == ackMac(
+//@        replayTr(bytes(b[36:836]), opened(old(bytes(s.cookieKey)), cookieAD(bytes(b[36:836]), old(bytes(addr.IP)), addr.Port), bytes(b[836:900])), bytes(b[836:900])),
+//@        bytes(b[0:4]), bytes(b[4:36]), bytes(b[36:836]), bytes(b[836:900]), bytes(b[900:1156]))
+//@   ensures err == nil ==> b[0] == 3 && b[1] == 0 && b[2] == 0 && b[3] == 0 && bytes(hs.dh.remoteEphemeral) == bytes(b[4:36])
 
 // Configuration callbacks (application code): assumed to return usable certificates.
 //@ func transport.ServerConfig.GetCertificate(info ClientHandshakeInfo) (c *Certificate, err error)
@@ -412,10 +442,22 @@ package transport
 //@        argof(certs.Store.VerifyLeaf, leaf) == argof(authkeys.SyncAuthKeySet.VerifyLeaf, leaf)
 
 //@ func (s *Server) writePQServerAuth(b []byte, hs *HandshakeState) (n int, err error)
-//@   property C10
+//@   property C10 C02
 //@   requires hsOK(hs) && hs.duplex.mode == cyclist.Key
 //@   modifies hs.duplex, hs.duplex.gh_tr, b[:]
 //@   ensures err == nil ==> 0 <= n && n <= len(b) && cyclistOK(hs.duplex) && hs.duplex.mode == cyclist.Key
+// (C02) with L = n - 72 the length of the encrypted certificates: header (which carries L), session id, server DH
+// ephemeral, DH(ee), the certificates (in reader form), then the tag; DH(es), then the MAC
+//@   ensures err == nil ==> n >= 76 && b[0] == 4 && b[1] == 0 && b[2] == uint8((n - 72) >> 8) && b[3] == uint8(n - 72)
+//@   ensures err == nil ==> bytes(b[4:8]) == old(bytes(hs.sessionID)) && bytes(b[8:40]) == old(bytes(hs.dh.ephemeral.Public))
+//@   ensures err == nil ==> hs.duplex.gh_tr == sauthTr(old(hs.duplex.gh_tr), bytes(b[0:4]), bytes(b[4:8]), bytes(b[8:40]),
+//@        dhAgree(old(bytes(hs.dh.ephemeral.Private)), old(bytes(hs.dh.remoteEphemeral))), bytes(b[40:n-32]),
+//@        exAgree(ref(resultof(transport.ServerConfig.GetCertificate, c).Exchanger), old(bytes(hs.dh.remoteEphemeral))))
+//@   ensures err == nil ==> bytes(b[n-32:n-16]) == sauthTag(old(hs.duplex.gh_tr), bytes(b[0:4]), bytes(b[4:8]), bytes(b[8:40]),
+//@        dhAgree(old(bytes(hs.dh.ephemeral.Private)), old(bytes(hs.dh.remoteEphemeral))), bytes(b[40:n-32]))
+//@   ensures err == nil ==> bytes(b[n-16:n]) == sauthMac(old(hs.duplex.gh_tr), bytes(b[0:4]), bytes(b[4:8]), bytes(b[8:40]),
+//@        dhAgree(old(bytes(hs.dh.ephemeral.Private)), old(bytes(hs.dh.remoteEphemeral))), bytes(b[40:n-32]),
+//@        exAgree(ref(resultof(transport.ServerConfig.GetCertificate, c).Exchanger), old(bytes(hs.dh.remoteEphemeral))))
 
 //@ func (s *Server) fetchHandshakeState(remoteAddr *net.UDPAddr) (hs *HandshakeState)
 //@   assume handshake table lookup (net.UDPAddr.String as key); entries were stored by setHandshakeState after readPQClientAck / handlePQClientRequestHidden, so they satisfy hsOK and are keyed
@@ -424,8 +466,15 @@ package transport
 //@   ensures hs != nil ==> hsOK(hs) && hs.duplex.mode == cyclist.Key
 
 //@ func (s *Server) readPQClientAuth(b []byte, addr *net.UDPAddr) (n int, hs *HandshakeState, err error)
-//@   property C10 C01
+//@   property C10 C01 C02
 //@   ensures err == nil ==> hs != nil && hsOK(hs) && hs.duplex.mode == cyclist.Key
+// (C02) all n bytes are covered, by the same transcript function the writer applies to the stored handshake's duplex
+//@   ensures err == nil ==> n == 40 + (int(b[2]) << 8) + int(b[3]) && n <= len(b) && b[0] == 5 && b[1] == 0 && bytes(b[4:8]) == bytes(hs.sessionID)
+//@   ensures err == nil ==> hs.duplex.gh_tr == cauthTr(old(hs.duplex.gh_tr), bytes(b[0:4]), bytes(b[4:8]), bytes(b[8:n-32]),
+//@        dhAgree(bytes(hs.dh.ephemeral.Private), rng(resultof(transport.HandshakeState.certificateParserAndVerifier, leaf).PublicKey, 0, 32)))
+//@   ensures err == nil ==> bytes(b[n-32:n-16]) == cauthTag(old(hs.duplex.gh_tr), bytes(b[0:4]), bytes(b[4:8]), bytes(b[8:n-32]))
+//@   ensures err == nil ==> bytes(b[n-16:n]) == cauthMac(old(hs.duplex.gh_tr), bytes(b[0:4]), bytes(b[4:8]), bytes(b[8:n-32]),
+//@        dhAgree(bytes(hs.dh.ephemeral.Private), rng(resultof(transport.HandshakeState.certificateParserAndVerifier, leaf).PublicKey, 0, 32)))
 // (C01, server side, discoverable mode) success means: the handshake state is the one stored for the
 // datagram's source address, the client's certificates passed the policy attached to that state,
 // and the FINAL MAC - squeezed after absorbing DH(server ephemeral, key in the verified client leaf) -
@@ -472,11 +521,22 @@ package transport
 //@        resultof(transport.Server.readPQClientRequestHidden, err) == nil
 
 //@ func (s *Server) writePQServerResponseHidden(hs *HandshakeState, b []byte) (n int, err error)
-//@   property C10
+//@   property C10 C02
 //@   requires hsOK(hs) && hs.duplex.mode == cyclist.Key && hs.kem.remoteEphemeral != nil
 //@   modifies hs.duplex, hs.duplex.gh_tr, b[:]
 //@   ensures 0 <= n && n <= len(b)
 //@   ensures err == nil ==> cyclistOK(hs.duplex) && hs.duplex.mode == cyclist.Key
+// (C02) with L = n - 808: header (carrying L), session id, secret encapsulated to the client's KEM key, certificates
+// (reader form), tag; DH(ss) with the client's static key recorded by the request reader, MAC
+//@   ensures err == nil ==> n >= 812 && b[0] == 9 && b[1] == 0 && b[2] == uint8((n - 808) >> 8) && b[3] == uint8(n - 808) && bytes(b[4:8]) == old(bytes(hs.sessionID))
+//@   ensures err == nil ==> hs.duplex.gh_tr == hrespTr(old(hs.duplex.gh_tr), bytes(b[0:4]), bytes(b[4:8]),
+//@        kemShared(kemPubOf(ref(hs.kem.remoteEphemeral)), bytes(b[8:776])), bytes(b[776:n-32]),
+//@        exAgree(ref(resultof(transport.ServerConfig.GetCertificate, c).Exchanger), old(bytes(hs.dh.remoteStatic))))
+//@   ensures err == nil ==> bytes(b[n-32:n-16]) == hrespTag(old(hs.duplex.gh_tr), bytes(b[0:4]), bytes(b[4:8]),
+//@        kemShared(kemPubOf(ref(hs.kem.remoteEphemeral)), bytes(b[8:776])), bytes(b[776:n-32]))
+//@   ensures err == nil ==> bytes(b[n-16:n]) == hrespMac(old(hs.duplex.gh_tr), bytes(b[0:4]), bytes(b[4:8]),
+//@        kemShared(kemPubOf(ref(hs.kem.remoteEphemeral)), bytes(b[8:776])), bytes(b[776:n-32]),
+//@        exAgree(ref(resultof(transport.ServerConfig.GetCertificate, c).Exchanger), old(bytes(hs.dh.remoteStatic))))
 
 //@ func rand.Read(b []byte) (n int, err error)
 //@   assume crypto/rand never fails (documented since Go 1.24) and fills the whole slice
@@ -496,6 +556,10 @@ package transport
 //@   requires cyclistOK(hs.duplex) && hs.duplex.mode == cyclist.Key
 //@   modifies hs.duplex, hs.duplex.gh_tr, *clientToServerKey, *serverToClientKey
 //@   ensures err == nil
+// (C02) both keys are functions of the final handshake transcript alone; the first output is the
+// client-to-server key, the second the server-to-client key, squeezed under different labels
+//@   ensures clientToServerKey != serverToClientKey ==> bytes(*clientToServerKey) == keyC2S(old(hs.duplex.gh_tr))
+//@   ensures bytes(*serverToClientKey) == keyS2C(old(hs.duplex.gh_tr))
 
 //@ func newHandleForSession(underlying UDPLike, ss *SessionState, leaf *certs.Certificate, packetBufLen int) (h *Handle)
 //@   assume constructor (allocates the receive queue; C17 covers the queue)
@@ -520,9 +584,18 @@ package transport
 //@   modifies mapof(s.handshakes), mapof(s.sessions), hs.remoteAddr, hs.sessionID
 
 //@ func (s *Server) finishHandshake(hs *HandshakeState, isHidden bool) (err error)
-//@   property C10 C01
+//@   property C10 C01 C02
 //@   atomic
 //@   requires hsOK(hs) && hs.duplex.mode == cyclist.Key
+// (C02) the session found under the handshake's session id receives the two keys derived from the handshake's final
+// transcript, and the SERVER reads with the client-to-server key and writes with the server-to-client key
+//@   ensures called(transport.HandshakeState.deriveFinalKeys) ==>
+//@        (let ss = old(s.sessions)[old(hs.sessionID)] in
+//@         argof(transport.HandshakeState.deriveFinalKeys, hs) == hs &&
+//@         argof(transport.HandshakeState.deriveFinalKeys, clientToServerKey) == &ss.clientToServerKey &&
+//@         argof(transport.HandshakeState.deriveFinalKeys, serverToClientKey) == &ss.serverToClientKey &&
+//@         ss.readKey == &ss.clientToServerKey && ss.writeKey == &ss.serverToClientKey && ss.sessionID == old(ss.sessionID))
+//@   ensures err == nil ==> called(transport.HandshakeState.deriveFinalKeys) && callcount(transport.HandshakeState.deriveFinalKeys) == 1
 
 //@ func (s *Server) writePacket(pkt []byte, dst *net.UDPAddr) (err error)
 //@   property C10 C19
@@ -573,10 +646,14 @@ package transport
 
 //@ func readPQServerHello(hs *HandshakeState, b []byte) (n int, err error)
 //@   property C10 C02
-//@   requires hsOK(hs)
+//@   requires hsOK(hs) && ref(b) != ref(hs.macBuf[:])
 //@   modifies hs.duplex, hs.duplex.gh_tr, hs.macBuf, hs.cookie
 //@   ensures cyclistOK(hs.duplex) && hs.duplex.mode == old(hs.duplex.mode)
 //@   ensures err == nil ==> n == 852 && len(b) >= 852 && len(hs.cookie) == 64
+// (C02) all 852 bytes are covered, by the same transcript function the writer applies
+//@   ensures err == nil ==> hs.duplex.gh_tr == shTr(old(hs.duplex.gh_tr), bytes(b[0:4]), kemShared(kemPubOf(ref(hs.kem.ephemeral.Public)), bytes(b[4:772])), bytes(b[772:836]))
+//@   ensures err == nil ==> bytes(b[836:852]) == shMac(old(hs.duplex.gh_tr), bytes(b[0:4]), kemShared(kemPubOf(ref(hs.kem.ephemeral.Public)), bytes(b[4:772])), bytes(b[772:836]))
+//@   ensures err == nil ==> b[0] == 2 && b[1] == 0 && b[2] == 0 && b[3] == 0 && bytes(hs.cookie) == bytes(b[772:836])
 
 //@ func (n certs.Name) WriteTo(w io.Writer) (k int64, err error)
 //@   assume name encoding (C18 covers it); writes only to w
@@ -587,18 +664,34 @@ package transport
 //@   requires cyclistOK(hs.duplex) && hs.duplex.mode == cyclist.Key && len(dst) >= 256
 //@   modifies hs.duplex, hs.duplex.gh_tr, dst[:]
 //@   ensures cyclistOK(hs.duplex) && hs.duplex.mode == cyclist.Key
+// (C02) in reader form: the duplex ends where a duplex that DECRYPTS the 256 bytes written would end
+//@   ensures err == nil ==> hs.duplex.gh_tr == trDecrypt(old(hs.duplex.gh_tr), bytes(dst[0:256]))
 
 //@ func (hs *HandshakeState) writePQClientAck(b []byte) (n int, err error)
 //@   property C10 C02
 //@   requires hsOK(hs) && hs.duplex.mode == cyclist.Key && hs.kem.ephemeral.Public != nil && hs.certVerify != nil
 //@   modifies hs.duplex, hs.duplex.gh_tr, b[:]
 //@   ensures cyclistOK(hs.duplex) && hs.duplex.mode == cyclist.Key && 0 <= n && n <= len(b)
+//@   ensures err == nil ==> n == 1172 && b[0] == 3 && b[1] == 0 && b[2] == 0 && b[3] == 0
+//@   ensures err == nil ==> hs.duplex.gh_tr == ackTr(old(hs.duplex.gh_tr), bytes(b[0:4]), bytes(b[4:36]), bytes(b[36:836]), bytes(b[836:900]), bytes(b[900:1156]))
+//@   ensures err == nil ==> bytes(b[1156:1172]) == ackMac(old(hs.duplex.gh_tr), bytes(b[0:4]), bytes(b[4:36]), bytes(b[36:836]), bytes(b[836:900]), bytes(b[900:1156]))
+//@   ensures err == nil ==> bytes(b[36:836]) == kemPubOf(ref(hs.kem.ephemeral.Public))
 
 //@ func (hs *HandshakeState) readPQServerAuth(b []byte) (n int, err error)
 //@   property C10 C01 C02
 //@   requires hsOK(hs) && hs.duplex.mode == cyclist.Key
 //@   modifies hs.duplex, hs.duplex.gh_tr, hs.sessionID, hs.macBuf, hs.dh.remoteEphemeral, opaque(hs)
 //@   ensures err == nil ==> cyclistOK(hs.duplex) && hs.duplex.mode == cyclist.Key && n <= len(b)
+// (C02) all n bytes are covered, by the same transcript function the writer applies; n is fixed by the header
+//@   ensures err == nil ==> n == 72 + (int(b[2]) << 8) + int(b[3]) && b[0] == 4 && b[1] == 0 && bytes(hs.sessionID) == bytes(b[4:8]) && bytes(hs.dh.remoteEphemeral) == bytes(b[8:40])
+//@   ensures err == nil ==> hs.duplex.gh_tr == sauthTr(old(hs.duplex.gh_tr), bytes(b[0:4]), bytes(b[4:8]), bytes(b[8:40]),
+//@        dhAgree(old(bytes(hs.dh.ephemeral.Private)), bytes(b[8:40])), bytes(b[40:n-32]),
+//@        dhAgree(old(bytes(hs.dh.ephemeral.Private)), rng(resultof(transport.HandshakeState.certificateParserAndVerifier, leaf).PublicKey, 0, 32)))
+//@   ensures err == nil ==> bytes(b[n-32:n-16]) == sauthTag(old(hs.duplex.gh_tr), bytes(b[0:4]), bytes(b[4:8]), bytes(b[8:40]),
+//@        dhAgree(old(bytes(hs.dh.ephemeral.Private)), bytes(b[8:40])), bytes(b[40:n-32]))
+//@   ensures err == nil ==> bytes(b[n-16:n]) == sauthMac(old(hs.duplex.gh_tr), bytes(b[0:4]), bytes(b[4:8]), bytes(b[8:40]),
+//@        dhAgree(old(bytes(hs.dh.ephemeral.Private)), bytes(b[8:40])), bytes(b[40:n-32]),
+//@        dhAgree(old(bytes(hs.dh.ephemeral.Private)), rng(resultof(transport.HandshakeState.certificateParserAndVerifier, leaf).PublicKey, 0, 32)))
 // (C01) success means: the server's certificates passed the client's policy, and the FINAL MAC -
 // squeezed after absorbing DH(client ephemeral, the public key in that verified leaf) - was
 // compared with the last 16 bytes of the message and was equal.
@@ -622,18 +715,50 @@ package transport
 //@   modifies hs.duplex, hs.duplex.gh_tr, b[:]
 //@   ensures 0 <= n && n <= len(b)
 //@   ensures err == nil ==> cyclistOK(hs.duplex) && hs.duplex.mode == cyclist.Key
+// (C02) with L = n - 40: header (carrying L), session id, the client's certificates (reader form), tag; DH(se), MAC
+//@   ensures err == nil ==> n >= 44 && b[0] == 5 && b[1] == 0 && b[2] == uint8((n - 40) >> 8) && b[3] == uint8(n - 40) && bytes(b[4:8]) == old(bytes(hs.sessionID))
+//@   ensures err == nil ==> hs.duplex.gh_tr == cauthTr(old(hs.duplex.gh_tr), bytes(b[0:4]), bytes(b[4:8]), bytes(b[8:n-32]),
+//@        exAgree(ref(hs.dh.static), old(bytes(hs.dh.remoteEphemeral))))
+//@   ensures err == nil ==> bytes(b[n-32:n-16]) == cauthTag(old(hs.duplex.gh_tr), bytes(b[0:4]), bytes(b[4:8]), bytes(b[8:n-32]))
+//@   ensures err == nil ==> bytes(b[n-16:n]) == cauthMac(old(hs.duplex.gh_tr), bytes(b[0:4]), bytes(b[4:8]), bytes(b[8:n-32]),
+//@        exAgree(ref(hs.dh.static), old(bytes(hs.dh.remoteEphemeral))))
 
 //@ func (hs *HandshakeState) writePQClientRequestHidden(b []byte, serverKEMPublicKey *keys.KEMPublicKey) (n int, err error)
 //@   property C10 C02
 //@   requires hsOK(hs) && hs.duplex.mode == cyclist.Key && hs.kem.ephemeral.Public != nil
 //@   modifies hs.duplex, hs.duplex.gh_tr, b[:]
 //@   ensures cyclistOK(hs.duplex) && hs.duplex.mode == cyclist.Key && 0 <= n && n <= len(b)
+// (C02) with L = n - 1612: header (carrying L), client KEM key, secret encapsulated to the server's static KEM key,
+// certificates (reader form), tag; encrypted timestamp (reader form), MAC
+//@   ensures err == nil ==> n >= 1616 && b[0] == 8 && b[1] == 1 && b[2] == uint8((n - 1612) >> 8) && b[3] == uint8(n - 1612)
+//@   ensures err == nil ==> bytes(b[4:804]) == kemPubOf(ref(hs.kem.ephemeral.Public))
+// stated in two steps (the solvers do not combine them in one query): the absorbed secret K and the encrypted certificates
+// C are functions of the message bytes ...
+//@   ensures err == nil ==> bytes(resultof(keys.Encapsulate, ss)) == kemShared(kemPubOf(ref(*serverKEMPublicKey)), bytes(b[804:1572]))
+//@   ensures err == nil ==> bytes(resultof(transport.EncryptCertificates, out)) == bytes(b[1572:n-40])
+// ... and transcript, tag and MAC are the request's transcript function of header, key, K, C and the encrypted timestamp
+//@   ensures err == nil ==> hs.duplex.gh_tr == hreqTr(old(hs.duplex.gh_tr), bytes(b[0:4]), bytes(b[4:804]),
+//@        bytes(resultof(keys.Encapsulate, ss)), bytes(resultof(transport.EncryptCertificates, out)), bytes(b[n-24:n-16]))
+//@   ensures err == nil ==> bytes(b[n-40:n-24]) == hreqTag(old(hs.duplex.gh_tr), bytes(b[0:4]), bytes(b[4:804]),
+//@        bytes(resultof(keys.Encapsulate, ss)), bytes(resultof(transport.EncryptCertificates, out)))
+//@   ensures err == nil ==> bytes(b[n-16:n]) == hreqMac(old(hs.duplex.gh_tr), bytes(b[0:4]), bytes(b[4:804]),
+//@        bytes(resultof(keys.Encapsulate, ss)), bytes(resultof(transport.EncryptCertificates, out)), bytes(b[n-24:n-16]))
 
 //@ func (hs *HandshakeState) readPQServerResponseHidden(b []byte) (n int, err error)
 //@   property C10 C01 C02
 //@   requires hsOK(hs) && hs.duplex.mode == cyclist.Key && hs.dh.static != nil
 //@   modifies hs.duplex, hs.duplex.gh_tr, hs.sessionID, hs.macBuf, hs.parsedLeaf, opaque(hs)
 //@   ensures err == nil ==> n <= len(b) && cyclistOK(hs.duplex) && hs.duplex.mode == cyclist.Key
+// (C02) all n bytes are covered, by the same transcript function the writer applies; n is fixed by the header
+//@   ensures err == nil ==> n == 808 + (int(b[2]) << 8) + int(b[3]) && b[0] == 9 && b[1] == 0 && bytes(hs.sessionID) == bytes(b[4:8])
+//@   ensures err == nil ==> hs.duplex.gh_tr == hrespTr(old(hs.duplex.gh_tr), bytes(b[0:4]), bytes(b[4:8]),
+//@        kemShared(kemPubOf(ref(hs.kem.ephemeral.Public)), bytes(b[8:776])), bytes(b[776:n-32]),
+//@        exAgree(ref(hs.dh.static), rng(resultof(transport.HandshakeState.certificateParserAndVerifier, leaf).PublicKey, 0, 32)))
+//@   ensures err == nil ==> bytes(b[n-32:n-16]) == hrespTag(old(hs.duplex.gh_tr), bytes(b[0:4]), bytes(b[4:8]),
+//@        kemShared(kemPubOf(ref(hs.kem.ephemeral.Public)), bytes(b[8:776])), bytes(b[776:n-32]))
+//@   ensures err == nil ==> bytes(b[n-16:n]) == hrespMac(old(hs.duplex.gh_tr), bytes(b[0:4]), bytes(b[4:8]),
+//@        kemShared(kemPubOf(ref(hs.kem.ephemeral.Public)), bytes(b[8:776])), bytes(b[776:n-32]),
+//@        exAgree(ref(hs.dh.static), rng(resultof(transport.HandshakeState.certificateParserAndVerifier, leaf).PublicKey, 0, 32)))
 // (C01, client side, hidden mode) as readPQServerAuth, with DH(client static, key in the verified server leaf).
 //@   ensures err == nil ==> called(transport.HandshakeState.certificateParserAndVerifier) && resultof(transport.HandshakeState.certificateParserAndVerifier, err) == nil
 //@   ensures err == nil ==> callcount(bytes.Equal) == 2 && resultof(bytes.Equal, r) &&
@@ -654,7 +779,20 @@ package transport
 // (C01) the client's handshake drivers succeed only if the server-auth / server-response reader accepted
 // the whole datagram that was received.
 //@ func (c *Client) beginPQDiscoverableHandshake(buf []byte) (err error)
-//@   property C10 C01
+//@   property C10 C01 C02
+// (C02) exact-length checks: the server hello and the server auth readers each consumed the whole datagram received
+//@   after transport.readPQServerHello let shDatagramLen = resultof(transport.UDPLike.ReadMsgUDP, n)
+//@   ensures err == nil ==> resultof(transport.readPQServerHello, n) == shDatagramLen
+//@   ensures err == nil ==> len(argof(transport.HandshakeState.readPQServerAuth, b)) == resultof(transport.UDPLike.ReadMsgUDP, n)
+// (C02) the transcript is touched only through the message functions, in protocol order, on the one handshake state
+//@   ensures err == nil ==> seqof(transport.writePQClientHello) < seqof(transport.readPQServerHello) &&
+//@        seqof(transport.readPQServerHello) < seqof(transport.HandshakeState.RekeyFromSqueeze) &&
+//@        seqof(transport.HandshakeState.RekeyFromSqueeze) < seqof(transport.HandshakeState.writePQClientAck) &&
+//@        seqof(transport.HandshakeState.writePQClientAck) < seqof(transport.HandshakeState.readPQServerAuth) &&
+//@        seqof(transport.HandshakeState.readPQServerAuth) < seqof(transport.HandshakeState.writePQClientAuth) &&
+//@        callcount(transport.writePQClientHello) == 1 && callcount(transport.readPQServerHello) == 1 && callcount(transport.HandshakeState.RekeyFromSqueeze) == 1 &&
+//@        callcount(transport.HandshakeState.writePQClientAck) == 1 && callcount(transport.HandshakeState.readPQServerAuth) == 1 && callcount(transport.HandshakeState.writePQClientAuth) == 1 &&
+//@        callcount(cyclist.Cyclist.Absorb) == 1
 //@   ensures err == nil ==> called(transport.HandshakeState.readPQServerAuth) && resultof(transport.HandshakeState.readPQServerAuth, err) == nil &&
 //@        resultof(transport.HandshakeState.readPQServerAuth, n) == len(argof(transport.HandshakeState.readPQServerAuth, b)) &&
 //@        called(transport.readPQServerHello) && resultof(transport.readPQServerHello, err) == nil
@@ -662,7 +800,13 @@ package transport
 //@   requires c.hs != nil && hsOK(c.hs) && c.hs.duplex.mode == cyclist.Hash && c.hs.kem.ephemeral.Public != nil && c.hs.certVerify != nil && c.hs.dh.static != nil && len(buf) >= 65535
 
 //@ func (c *Client) beginPQHiddenHandshake(buf []byte) (err error)
-//@   property C10 C01
+//@   property C10 C01 C02
+// (C02) the response reader consumed the whole datagram received; the transcript is touched only through the message functions
+//@   ensures err == nil ==> len(argof(transport.HandshakeState.readPQServerResponseHidden, b)) == resultof(transport.UDPLike.ReadMsgUDP, n)
+//@   ensures err == nil ==> seqof(transport.HandshakeState.RekeyFromSqueeze) < seqof(transport.HandshakeState.writePQClientRequestHidden) &&
+//@        seqof(transport.HandshakeState.writePQClientRequestHidden) < seqof(transport.HandshakeState.readPQServerResponseHidden) &&
+//@        callcount(transport.HandshakeState.RekeyFromSqueeze) == 1 && callcount(transport.HandshakeState.writePQClientRequestHidden) == 1 &&
+//@        callcount(transport.HandshakeState.readPQServerResponseHidden) == 1 && callcount(cyclist.Cyclist.Absorb) == 1
 //@   ensures err == nil ==> called(transport.HandshakeState.readPQServerResponseHidden) && resultof(transport.HandshakeState.readPQServerResponseHidden, err) == nil &&
 //@        resultof(transport.HandshakeState.readPQServerResponseHidden, n) == len(argof(transport.HandshakeState.readPQServerResponseHidden, b))
 //@   ensures err == nil ==> c.hs == old(c.hs) && hsOK(c.hs) && c.hs.duplex.mode == cyclist.Key
@@ -674,9 +818,26 @@ package transport
 
 // (C01) Handshake on the client reports success only if one of the two drivers did, and the client
 // verifies the server with its own configured policy.
+//@ func (u UDPLike) SetReadDeadline(t time.Time) (err error)
+//@   assume socket deadline (net.UDPConn and the test doubles): changes only the connection's own state
+//@   modifies opaque(u)
+
 //@ func (c *Client) clientHandshakeLocked() (err error)
-//@   property C01
+//@   property C01 C02
 //@   requires c.config.Exchanger != nil
+// runs with the client's lock held (its only caller, Handshake, takes c.lock): no other goroutine changes c meanwhile
+//@   atomic
+// (C02) the client's session takes the session id the handshake received and the two keys derived from the handshake's
+// final transcript, and the CLIENT writes with the client-to-server key and reads with the server-to-client key
+//@   ensures err == nil ==> c.ss != nil && callcount(transport.HandshakeState.deriveFinalKeys) == 1
+//@   ensures err == nil ==> argof(transport.HandshakeState.deriveFinalKeys, clientToServerKey) == &c.ss.clientToServerKey &&
+//@        argof(transport.HandshakeState.deriveFinalKeys, serverToClientKey) == &c.ss.serverToClientKey
+//@   ensures err == nil ==> c.ss.writeKey == &c.ss.clientToServerKey && c.ss.readKey == &c.ss.serverToClientKey
+//@   ensures err == nil ==> c.ss.sessionID == argof(transport.HandshakeState.deriveFinalKeys, hs).sessionID
+//@   ensures err == nil && called(transport.Client.beginPQDiscoverableHandshake) ==>
+//@        seqof(transport.Client.beginPQDiscoverableHandshake) < seqof(transport.HandshakeState.deriveFinalKeys)
+//@   ensures err == nil && called(transport.Client.beginPQHiddenHandshake) ==>
+//@        seqof(transport.Client.beginPQHiddenHandshake) < seqof(transport.HandshakeState.deriveFinalKeys)
 //@   ensures err == nil ==> (called(transport.Client.beginPQHiddenHandshake) && resultof(transport.Client.beginPQHiddenHandshake, err) == nil) ||
 //@        (called(transport.Client.beginPQDiscoverableHandshake) && resultof(transport.Client.beginPQDiscoverableHandshake, err) == nil)
 
@@ -689,3 +850,90 @@ package transport
 //@ macro chAbs(t, hdr, ekem) = trAbsorb(trAbsorb(t, hdr), ekem)
 //@ macro chTr(t, hdr, ekem) = trSqueeze(chAbs(t, hdr, ekem), 16)
 //@ macro chMac(t, hdr, ekem) = sqBytes(chAbs(t, hdr, ekem), 16)
+
+// Server Hello: [0:4] header | [4:772] KEM ciphertext | [772:836] cookie | [836:852] MAC
+// (the ciphertext enters the transcript through the secret k = kemShared(client key, ciphertext))
+//@ macro shAbs(t, hdr, k, cookie) = trAbsorb(trAbsorb(trAbsorb(t, hdr), k), cookie)
+//@ macro shTr(t, hdr, k, cookie) = trSqueeze(shAbs(t, hdr, k, cookie), 16)
+//@ macro shMac(t, hdr, k, cookie) = sqBytes(shAbs(t, hdr, k, cookie), 16)
+// Re-keying between the hello exchange and the rest: squeeze 16 bytes, start a keyed duplex labelled with the protocol name
+//@ spec noBytes() Bytes
+//@ axiom C02.empty_bytes: forall a bytearr, o int :: rng(a, o, 0) == noBytes()
+//@ spec bytes4(b0 uint8, b1 uint8, b2 uint8, b3 uint8) Bytes
+//@ axiom C02.four_bytes: forall a bytearr, o int :: rng(a, o, 4) == bytes4(a[o], a[o+1], a[o+2], a[o+3])
+//@ macro rekeyTr(t, pn) = trKeyed(sqBytes(t, 16), pn, noBytes())
+// The cyclist duplex stays in step across an encrypt/decrypt pair: decrypting the ciphertext just produced
+// leaves the decryptor's transcript where the encryptor's is and returns the plaintext (assumed here;
+// the byte-level duplex is C13's subject).
+//@ axiom C02.duplex_sync: forall t Tr, p Bytes :: trDecrypt(t, ctBytes(t, p)) == trEncrypt(t, p) && ptBytes(t, ctBytes(t, p)) == p
+// AEAD correctness (assumed; C12): what was sealed under (key, ad) opens under (key, ad) to the same plaintext.
+//@ axiom C02.aead_correct: forall k Bytes, ad Bytes, p Bytes :: openOK(k, ad, sealedOf(k, ad, p)) && opened(k, ad, sealedOf(k, ad, p)) == p
+
+// Client Ack: [0:4] header | [4:36] client DH ephemeral | [36:836] client KEM key | [836:900] cookie | [900:1156] encrypted SNI | [1156:1172] MAC
+//@ macro ackAbs(t, hdr, dh, kem, cookie) = trAbsorb(trAbsorb(trAbsorb(trAbsorb(t, hdr), dh), kem), cookie)
+//@ macro ackTr(t, hdr, dh, kem, cookie, sni) = trSqueeze(trDecrypt(ackAbs(t, hdr, dh, kem, cookie), sni), 16)
+//@ macro ackMac(t, hdr, dh, kem, cookie, sni) = sqBytes(trDecrypt(ackAbs(t, hdr, dh, kem, cookie), sni), 16)
+// The hello exchange as the server recomputes it from a cookie (ReplayPQDuplexFromCookie) - and as the client
+// holds it after readPQServerHello + RekeyFromSqueeze, provided the cookie opens to the KEM secret (C02.replay_agrees).
+//@ macro pqName() = bytes("hop_pqNN_XX_cyclist_keccak_p1600_12")
+//@ macro replayTr(ekem, k, cookie) = rekeyTr(shTr(chTr(trAbsorb(trEmpty(), pqName()), bytes4(1, 1, 0, 0), ekem), bytes4(2, 0, 0, 0), k, cookie), pqName())
+
+// Server Auth: [0:4] header (type, 0, L hi, L lo) | [4:8] session id | [8:40] server DH ephemeral | [40:40+L] encrypted certificates |
+//              [40+L:56+L] tag | [56+L:72+L] MAC.  DH(ee) is absorbed before the certificates, DH(es) before the MAC.
+//@ macro sauthPre(t, hdr, sid, dhe, ee) = trAbsorb(trAbsorb(trAbsorb(trAbsorb(t, hdr), sid), dhe), ee)
+//@ macro sauthMid(t, hdr, sid, dhe, ee, certs) = trDecrypt(sauthPre(t, hdr, sid, dhe, ee), certs)
+//@ macro sauthTag(t, hdr, sid, dhe, ee, certs) = sqBytes(sauthMid(t, hdr, sid, dhe, ee, certs), 16)
+//@ macro sauthEnd(t, hdr, sid, dhe, ee, certs, es) = trAbsorb(trSqueeze(sauthMid(t, hdr, sid, dhe, ee, certs), 16), es)
+//@ macro sauthMac(t, hdr, sid, dhe, ee, certs, es) = sqBytes(sauthEnd(t, hdr, sid, dhe, ee, certs, es), 16)
+//@ macro sauthTr(t, hdr, sid, dhe, ee, certs, es) = trSqueeze(sauthEnd(t, hdr, sid, dhe, ee, certs, es), 16)
+// Client Auth: [0:4] header (type, 0, L hi, L lo) | [4:8] session id | [8:8+L] encrypted certificates | [8+L:24+L] tag | [24+L:40+L] MAC.
+//@ macro cauthMid(t, hdr, sid, certs) = trDecrypt(trAbsorb(trAbsorb(t, hdr), sid), certs)
+//@ macro cauthTag(t, hdr, sid, certs) = sqBytes(cauthMid(t, hdr, sid, certs), 16)
+//@ macro cauthEnd(t, hdr, sid, certs, se) = trAbsorb(trSqueeze(cauthMid(t, hdr, sid, certs), 16), se)
+//@ macro cauthMac(t, hdr, sid, certs, se) = sqBytes(cauthEnd(t, hdr, sid, certs, se), 16)
+//@ macro cauthTr(t, hdr, sid, certs, se) = trSqueeze(cauthEnd(t, hdr, sid, certs, se), 16)
+// Final keys: ratchet, absorb a direction label, squeeze 16 bytes - twice.
+//@ macro kdfC2S(t) = trAbsorb(trRatchet(t), bytes("client_to_server_key"))
+//@ macro keyC2S(t) = sqBytes(kdfC2S(t), 16)
+//@ macro kdfS2C(t) = trAbsorb(trRatchet(trSqueeze(kdfC2S(t), 16)), bytes("server_to_client_key"))
+//@ macro keyS2C(t) = sqBytes(kdfS2C(t), 16)
+
+// Hidden mode.  Client Request: [0:4] header (type, version, L hi, L lo) | [4:804] client KEM key | [804:1572] ciphertext to the
+// server's static KEM key | [1572:1572+L] encrypted certificates | tag 16 | encrypted timestamp 8 | MAC 16   (n = 1612 + L)
+//@ macro hreqPre(t, hdr, ekem, k) = trAbsorb(trAbsorb(trAbsorb(t, hdr), ekem), k)
+//@ macro hreqMid(t, hdr, ekem, k, certs) = trDecrypt(hreqPre(t, hdr, ekem, k), certs)
+//@ macro hreqTag(t, hdr, ekem, k, certs) = sqBytes(hreqMid(t, hdr, ekem, k, certs), 16)
+//@ macro hreqTs(t, hdr, ekem, k, certs, ts) = trDecrypt(trSqueeze(hreqMid(t, hdr, ekem, k, certs), 16), ts)
+//@ macro hreqMac(t, hdr, ekem, k, certs, ts) = sqBytes(hreqTs(t, hdr, ekem, k, certs, ts), 16)
+//@ macro hreqTr(t, hdr, ekem, k, certs, ts) = trSqueeze(hreqTs(t, hdr, ekem, k, certs, ts), 16)
+// Server Response: [0:4] header (type, 0, L hi, L lo) | [4:8] session id | [8:776] ciphertext to the client's KEM key |
+// [776:776+L] encrypted certificates | tag 16 | MAC 16   (n = 808 + L); DH(ss) is absorbed before the MAC
+//@ macro hrespPre(t, hdr, sid, k) = trAbsorb(trAbsorb(trAbsorb(t, hdr), sid), k)
+//@ macro hrespMid(t, hdr, sid, k, certs) = trDecrypt(hrespPre(t, hdr, sid, k), certs)
+//@ macro hrespTag(t, hdr, sid, k, certs) = sqBytes(hrespMid(t, hdr, sid, k, certs), 16)
+//@ macro hrespEnd(t, hdr, sid, k, certs, ss) = trAbsorb(trSqueeze(hrespMid(t, hdr, sid, k, certs), 16), ss)
+//@ macro hrespMac(t, hdr, sid, k, certs, ss) = sqBytes(hrespEnd(t, hdr, sid, k, certs, ss), 16)
+//@ macro hrespTr(t, hdr, sid, k, certs, ss) = trSqueeze(hrespEnd(t, hdr, sid, k, certs, ss), 16)
+
+// ---------------------------------------------------------------------------
+// C02: agreement lemmas over the transcript functions above (proved from the axioms, no code involved)
+// ---------------------------------------------------------------------------
+// The abstract transcript is a history (a free term): equal histories were built from equal steps;
+// an abstract byte string determines its first byte.
+//@ axiom C02.absorb_history: forall t Tr, u Tr, x Bytes, y Bytes :: trAbsorb(t, x) == trAbsorb(u, y) ==> t == u && x == y
+//@ axiom C02.bytes_first: forall a bytearr, b bytearr, o int, p int, n int :: n > 0 && rng(a, o, n) == rng(b, p, n) ==> a[o] == b[p]
+// X25519 agreement commutes: what a key pair agrees on with the other side's public value is what the other side agrees on with ours (assumed).
+//@ axiom C02.dh_commutes: forall a Bytes, b Bytes :: dhAgree(a, dhPub(b)) == dhAgree(b, dhPub(a))
+
+// (1) The cookie carries the hello exchange: if the server sealed K = kemShared(client key, ciphertext) into the cookie
+// under (cookie key, AD), the transcript it later REPLAYS from that cookie under the same (cookie key, AD) is the
+// transcript the client holds after reading the server hello and re-keying.
+//@ lemma C02.replay_agrees: forall ck Bytes, ad Bytes, ekem Bytes, ct Bytes ::
+//@     replayTr(ekem, opened(ck, ad, sealedOf(ck, ad, kemShared(ekem, ct))), sealedOf(ck, ad, kemShared(ekem, ct))) ==
+//@     rekeyTr(shTr(chTr(trAbsorb(trEmpty(), pqName()), bytes4(1, 1, 0, 0), ekem), bytes4(2, 0, 0, 0), kemShared(ekem, ct), sealedOf(ck, ad, kemShared(ekem, ct))), pqName())
+// (2) Server auth: the server absorbs DH(server ephemeral, client ephemeral public) and the client DH(client ephemeral,
+// server ephemeral public); with the public values being those of the private keys the two transcripts coincide.
+//@ lemma C02.sauth_agrees: forall t Tr, hdr Bytes, sid Bytes, cpriv Bytes, spriv Bytes, certs Bytes, es Bytes ::
+//@     sauthTr(t, hdr, sid, dhPub(spriv), dhAgree(spriv, dhPub(cpriv)), certs, es) == sauthTr(t, hdr, sid, dhPub(spriv), dhAgree(cpriv, dhPub(spriv)), certs, es)
+// (3) The two directional keys are squeezed from different histories (different labels, different positions).
+//@ lemma C02.direction_keys_from_distinct_histories: forall t Tr :: kdfC2S(t) != kdfS2C(t)
